@@ -654,6 +654,11 @@ func c06Types(c *h.Ctx) error {
 				if cd.reused == nil {
 					cd.reused = cd.fresh()
 				}
+				// first the truncated prefixes of this very encoding (they announce the same lengths and are rejected or survived),
+				// then the full encoding: what a failed call leaves in the receiver must not change the next, valid call
+				for _, cut := range h.Cuts(len(b)) {
+					h.Guard(func() { cd.reused.Unmarshal(append([]byte{}, b[:cut]...)) })
+				}
 				in := append([]byte{}, b...)
 				var n int
 				var uerr error
